@@ -424,6 +424,8 @@ def Expr.lineFreeE : Expr → Prop
   | .lam _ _ _ _ body b a => body.lineFreeE ∧ lineFree b ∧ lineFree a
   | .un _ e _ _ b a => e.lineFreeE ∧ lineFree b ∧ lineFree a
   | .bin _ l r _ _ b a => l.lineFreeE ∧ r.lineFreeE ∧ lineFree b ∧ lineFree a
+  | .ite c t e _ _ _ _ _ _ _ _ _ _ _ b a => c.lineFreeE ∧ t.lineFreeE ∧ e.lineFreeE ∧ lineFree b ∧ lineFree a
+  | .has e _ _ _ _ _ b a => e.lineFreeE ∧ lineFree b ∧ lineFree a
 def allLineFree : List Expr → Prop
   | [] => True
   | e :: rest => e.lineFreeE ∧ allLineFree rest
@@ -488,6 +490,8 @@ theorem lineFreeE_after {e : Expr} (h : e.lineFreeE) : lineFree e.after := by
   | lam n c g k bd b a => exact h.2.2
   | un o e g bt b a => exact h.2.2
   | bin o l r x y b a => exact h.2.2.2
+  | ite c t e cg aic aig btc btg atc tg bec beg aec eg b a => exact h.2.2.2.2
+  | has e ats lg rg bq aq b a => exact h.2.2
 
 mutual
 theorem lexOut_noLine : (e : Expr) → e.ok → e.lineFreeE → ∀ na, noLineL (e.lexOut na)
@@ -583,6 +587,35 @@ theorem lexOut_noLine : (e : Expr) → e.ok → e.lineFreeE → ∀ na, noLineL 
     exact noLineL_append.mpr ⟨noLineL_append.mpr ⟨noLineL_append.mpr ⟨noLineL_append.mpr
       ⟨noLineL_cm hok.2.2.2.1 hf.2.2.1, lexOut_noLine l hok.2.1 hf.1 false⟩, noLineL_tok _⟩,
       lexOut_noLine r hok.2.2.1 hf.2.1 false⟩, noLineL_ite _ noLineL_nil (noLineL_cm hok.2.2.2.2 hf.2.2.2)⟩
+  | .ite c t e cg aic aig btc btg atc tg bec beg aec eg b a, hok, hf, na => by
+    simp only [Expr.lexOut]
+    exact noLineL_append.mpr ⟨noLineL_append.mpr ⟨noLineL_append.mpr ⟨noLineL_append.mpr ⟨noLineL_append.mpr
+      ⟨noLineL_append.mpr ⟨noLineL_append.mpr ⟨noLineL_cm hok.2.2.2.2.2.2.2.2.1 hf.2.2.2.1, noLineL_tok _⟩,
+      lexOut_noLine c hok.1 hf.1 false⟩, noLineL_tok _⟩, lexOut_noLine t hok.2.1 hf.2.1 false⟩, noLineL_tok _⟩,
+      lexOut_noLine e hok.2.2.1 hf.2.2.1 false⟩, noLineL_ite _ noLineL_nil (noLineL_cm hok.2.2.2.2.2.2.2.2.2 hf.2.2.2.2)⟩
+  | .has e attrs lg rg bq aq b a, hok, hf, na => by
+    simp only [Expr.lexOut]
+    have hattr : noLineL (attrLex0 attrs) := by
+      intro s hs
+      exfalso
+      cases attrs with
+      | nil => cases hs
+      | cons x r =>
+        simp only [attrLex0, List.mem_cons] at hs
+        rcases hs with h | hs
+        · cases h
+        · clear hok hf
+          induction r with
+          | nil => cases hs
+          | cons y r ih =>
+            simp only [attrLex, List.mem_cons] at hs
+            rcases hs with h | h | h
+            · cases h
+            · cases h
+            · exact ih h
+    exact noLineL_append.mpr ⟨noLineL_append.mpr ⟨noLineL_append.mpr ⟨noLineL_append.mpr
+      ⟨noLineL_cm hok.2.2.2.2.2.1 hf.2.1, lexOut_noLine e hok.1 hf.1 false⟩, noLineL_tok _⟩, hattr⟩,
+      noLineL_ite _ noLineL_nil (noLineL_cm hok.2.2.2.2.2.2 hf.2.2)⟩
 theorem lexOutAll_noLine : (es : List Expr) → allOk es → allLineFree es → noLineL (lexOutAll es)
   | [], _, _ => noLineL_nil
   | e :: rest, hok, hf => by
@@ -649,6 +682,11 @@ def Expr.mlSafe : Expr → Prop
   | .un _ e _ _ _ _ => e.mlSafe ∧ e.notBinding = true ∧ e.after = []
   | .bin _ l r _ _ _ _ =>
     l.mlSafe ∧ r.mlSafe ∧ l.notBinding = true ∧ r.notBinding = true ∧ l.after = [] ∧ r.after = []
+  -- condition and branches of an `if` carry no trailing trivia of their own
+  | .ite c t e _ _ _ _ _ _ _ _ _ _ _ _ _ =>
+    c.mlSafe ∧ t.mlSafe ∧ e.mlSafe ∧ c.notBinding = true ∧ t.notBinding = true ∧ e.notBinding = true ∧
+      c.after = [] ∧ t.after = [] ∧ e.after = []
+  | .has e _ _ _ _ _ _ _ => e.mlSafe ∧ e.notBinding = true ∧ e.after = []
 def allMlSafe : List Expr → Prop
   | [] => True
   | e :: rest => e.mlSafe ∧ allMlSafe rest
@@ -833,6 +871,8 @@ theorem rebuildAP_after_nil {e : Expr} (h : e.after = []) (i : Nat) (b : Bool) :
   | lam n c g k bd bf af => simp only [Expr.after] at h; subst h; simp [Expr.rebuildAP]
   | un o e g bt bf af => simp only [Expr.after] at h; subst h; simp [Expr.rebuildAP]
   | bin o l r x y bf af => simp only [Expr.after] at h; subst h; simp [Expr.rebuildAP]
+  | ite c t e cg aic aig btc btg atc tg bec beg aec eg bf af => simp only [Expr.after] at h; subst h; simp [Expr.rebuildAP]
+  | has e ats lg rg bq aq bf af => simp only [Expr.after] at h; subst h; simp [Expr.rebuildAP]
 
 /-- the argument of a call / the body of a `with` is rendered last and carries no trailing trivia -/
 def Expr.tailOk : Expr → Prop
@@ -843,6 +883,7 @@ def Expr.tailOk : Expr → Prop
   | .lam _ _ _ _ x _ _ => x.after = [] ∧ x.notBinding = true ∧ x.tailOk
   | .un _ x _ _ _ _ => x.after = [] ∧ x.notBinding = true ∧ x.tailOk
   | .bin _ _ x _ _ _ _ => x.after = [] ∧ x.notBinding = true ∧ x.tailOk
+  | .ite _ _ x _ _ _ _ _ _ _ _ _ _ _ _ _ => x.after = [] ∧ x.notBinding = true ∧ x.tailOk
   | _ => True
 
 theorem mlSafe_tailOk : (e : Expr) → e.mlSafe → e.tailOk
@@ -859,6 +900,8 @@ theorem mlSafe_tailOk : (e : Expr) → e.mlSafe → e.tailOk
   | .lam _ _ _ _ x _ _, h => ⟨h.2.2, h.2.1, mlSafe_tailOk x h.1⟩
   | .un _ x _ _ _ _, h => ⟨h.2.2, h.2.1, mlSafe_tailOk x h.1⟩
   | .bin _ _ x _ _ _ _, h => ⟨h.2.2.2.2.2, h.2.2.2.1, mlSafe_tailOk x h.2.1⟩
+  | .ite _ _ x _ _ _ _ _ _ _ _ _ _ _ _ _, h => ⟨h.2.2.2.2.2.2.2.2, h.2.2.2.2.2.1, mlSafe_tailOk x h.2.2.1⟩
+  | .has .., _ => trivial
 
 theorem attrP_endsTok : ∀ (attrs : List Text), attrs ≠ [] → (∀ x ∈ attrs, solidT x) →
     ∃ t, EndsTok (attrP attrs) t ∧ solidT t
@@ -1001,6 +1044,30 @@ theorem noAfter_ends_tok : (e : Expr) → e.ok → e.tailOk → e.notBinding = t
     rw [hsh]
     exact ⟨t, endsTok_append_nil (endsTok_append _ (endsTok_append _ (endsTok_cons _ (endsTok_cons _ (endsTok_cons _ ht))))), hst⟩
 
+  | .ite c t e cg aic aig btc btg atc tg bec beg aec eg bf af, hok, hml, _, i, b => by
+    obtain ⟨hxa, hxnb, hxm⟩ := hml
+    have key : ∀ (j : Nat) (bb : Bool), ∃ t, EndsTok (e.rebuildAP false j bb) t ∧ solidT t := by
+      intro j bb
+      obtain ⟨t, ht, hst⟩ := noAfter_ends_tok e hok.2.2.1 hxm hxnb j bb
+      rw [← rebuildAP_after_nil hxa] at ht
+      exact ⟨t, ht, hst⟩
+    have hE : ∀ (cc : Bool) (j : Nat), ∃ t, EndsTok (if cc = true then e.rebuildAP false j false
+        else e.rebuildAP false i true) t ∧ solidT t := by
+      intro cc j
+      split
+      · exact key _ _
+      · exact key _ _
+    obtain ⟨t, ht, hst⟩ := hE (iteLayout eg (branchHasComments aec e.before)).onNewline
+      ((iteLayout eg (branchHasComments aec e.before)).indent.getD i)
+    simp only [Expr.rebuildAP, addTriviaP, if_true, trailP_nil]
+    exact ⟨t, endsTok_append_nil (endsTok_append _ (endsTok_append _ ht)), hst⟩
+
+  | .has e attrs lg rg bq aq bf af, hok, _, _, i, b => by
+    obtain ⟨t, ht, hst⟩ := attrP_endsTok attrs hok.2.1 hok.2.2.1
+    refine ⟨t, ?_, hst⟩
+    simp only [Expr.rebuildAP, addTriviaP, if_true, trailP_nil]
+    exact endsTok_append_nil (endsTok_append _ (endsTok_append _ ht))
+
 /-- the trailing trivia are rendered last -/
 theorem rebuildAP_split {e : Expr} (hna : e.isAsrtE = false) (hnb : e.notBinding = true) (i : Nat) (b : Bool) :
     e.rebuildAP false i b = e.rebuildAP true i b ++ trailP e.after i := by
@@ -1027,6 +1094,8 @@ theorem rebuildAP_split {e : Expr} (hna : e.isAsrtE = false) (hnb : e.notBinding
   | lam n c g k bd bf af => simp [Expr.rebuildAP, addTriviaP, trailP_nil, Expr.after]
   | un o e g bt bf af => simp [Expr.rebuildAP, addTriviaP, trailP_nil, Expr.after]
   | bin o l r x y bf af => simp [Expr.rebuildAP, addTriviaP, trailP_nil, Expr.after]
+  | ite c t e cg aic aig btc btg atc tg bec beg aec eg bf af => simp [Expr.rebuildAP, addTriviaP, trailP_nil, Expr.after]
+  | has e ats lg rg bq aq bf af => simp [Expr.rebuildAP, addTriviaP, trailP_nil, Expr.after]
   | asrt c bd x y bf af => cases hna
 
 /-- an expression without trailing trivia ends closed -/
@@ -1068,6 +1137,8 @@ theorem rebuildAP_open {e : Expr} (hok : e.ok) (hml : e.mlSafe) (hnb : e.notBind
     | lam => cases hA
     | un => cases hA
     | bin => cases hA
+    | ite => cases hA
+    | has => cases hA
 
 /-- the comments after the function: safe after a closed state; open afterwards only if the last one
     is a line comment -/
@@ -1488,6 +1559,67 @@ theorem rebuildAP_safe : (e : Expr) → e.ok → e.mlSafe → ∀ (na : Bool) (i
     simp only [List.cons_append, (tok_then _ _).1, (ws_then _ _).1]
     rw [safeGo_append, hRs.1, hRs.2, Bool.true_and]
     exact ht
+  | .ite cond thn els cg aic aig btc btg atc tg bec beg aec eg before after, hok, hml, na, i, b => by
+    obtain ⟨hc, ht', he, _, _, _, _, _, hb, ha⟩ := hok
+    obtain ⟨hcm, htm, hem, hcnb, htnb, henb, hca, hta, hea⟩ := hml
+    have ht := (trailP_safe (ite_nil_ok na ha) i).1
+    have hC : ∀ (cc : Bool) (j : Nat) (rest : List FP), safeGo false ((if cc = true then cond.rebuildAP false j false
+        else cond.rebuildAP false i true) ++ rest) = safeGo false rest := by
+      intro cc j rest
+      rw [safeGo_append]
+      cases cc
+      · simp only [Bool.false_eq_true, if_false]
+        rw [rebuildAP_safe cond hc hcm false i true, closed_of_after_nil hc hcm hcnb hca i true, Bool.true_and]
+      · simp only [if_true]
+        rw [rebuildAP_safe cond hc hcm false j false, closed_of_after_nil hc hcm hcnb hca j false, Bool.true_and]
+    have hT : ∀ (cc : Bool) (j : Nat) (rest : List FP), safeGo false ((if cc = true then thn.rebuildAP false j false
+        else thn.rebuildAP false i true) ++ rest) = safeGo false rest := by
+      intro cc j rest
+      rw [safeGo_append]
+      cases cc
+      · simp only [Bool.false_eq_true, if_false]
+        rw [rebuildAP_safe thn ht' htm false i true, closed_of_after_nil ht' htm htnb hta i true, Bool.true_and]
+      · simp only [if_true]
+        rw [rebuildAP_safe thn ht' htm false j false, closed_of_after_nil ht' htm htnb hta j false, Bool.true_and]
+    have hE : ∀ (cc : Bool) (j : Nat) (rest : List FP), safeGo false ((if cc = true then els.rebuildAP false j false
+        else els.rebuildAP false i true) ++ rest) = safeGo false rest := by
+      intro cc j rest
+      rw [safeGo_append]
+      cases cc
+      · simp only [Bool.false_eq_true, if_false]
+        rw [rebuildAP_safe els he hem false i true, closed_of_after_nil he hem henb hea i true, Bool.true_and]
+      · simp only [if_true]
+        rw [rebuildAP_safe els he hem false j false, closed_of_after_nil he hem henb hea j false, Bool.true_and]
+    simp only [Expr.rebuildAP, addTriviaP, List.append_assoc]
+    rw [(lines_then i hb _).1, (indentP_scan i b _).1]
+    simp only [List.cons_append, List.nil_append, (tok_then _ _).1, (ws_then _ _).1]
+    rw [hC]
+    simp only [(tok_then _ _).1, (ws_then _ _).1]
+    rw [hT]
+    simp only [(tok_then _ _).1, (ws_then _ _).1]
+    rw [hE]
+    exact ht
+  | .has expr attrs lg rg bq aq before after, hok, hml, na, i, b => by
+    obtain ⟨he, hne, hat, _, _, hb, ha⟩ := hok
+    obtain ⟨hem, henb, hea⟩ := hml
+    have ht := (trailP_safe (ite_nil_ok na ha) i).1
+    have hattr : ∀ (rest : List FP), safeGo false (attrP attrs ++ rest) = safeGo false rest := by
+      intro rest
+      clear hne hat
+      induction attrs with
+      | nil => rfl
+      | cons x r ih =>
+        cases r with
+        | nil => simp only [attrP, List.cons_append, List.nil_append, (tok_then _ _).1]
+        | cons y r' =>
+          simp only [attrP, List.cons_append, (tok_then _ _).1]
+          exact ih
+    simp only [Expr.rebuildAP, addTriviaP, List.append_assoc]
+    rw [(lines_then i hb _).1, (indentP_scan i b _).1]
+    rw [safeGo_append, rebuildAP_safe expr he hem false i true, closed_of_after_nil he hem henb hea i true, Bool.true_and]
+    simp only [List.cons_append, List.nil_append, (tok_then _ _).1, (ws_then _ _).1]
+    rw [hattr]
+    exact ht
 theorem rebuildAllP_safe : (es : List Expr) → allOk es → allMlSafe es → ∀ (i : Nat) (b : Bool),
     ∀ x ∈ rebuildAllP es i b, safeGo false x = true
   | [], _, _, _, _, x, hx => by cases hx
@@ -1510,6 +1642,8 @@ theorem previewP_safe : (e : Expr) → e.ok → e.mlSafe → ∀ (i : Nat) (p : 
   | .lam .., _, _, i, p, h => by simp [Expr.previewP] at h
   | .un .., _, _, i, p, h => by simp [Expr.previewP] at h
   | .bin .., _, _, i, p, h => by simp [Expr.previewP] at h
+  | .ite .., _, _, i, p, h => by simp [Expr.previewP] at h
+  | .has .., _, _, i, p, h => by simp [Expr.previewP] at h
   | .list value ml inner before after, hok, hml, i, p, h => by
     obtain ⟨hv, hin, hb, ha⟩ := hok
     refine ⟨[']'], ?_, solidT_lit ']' (by decide), ?_⟩
@@ -1654,6 +1788,9 @@ def Cst.noLineC : Cst → Bool
   | .lam _ c1 _ c2 _ b => gcNoLine c1 && gcNoLine c2 && b.noLineC
   | .un _ c _ e => gcNoLine c && e.noLineC
   | .bin l c1 _ _ c2 _ r => l.noLineC && gcNoLine c1 && gcNoLine c2 && r.noLineC
+  | .ite c1 _ c c2 _ c3 _ t c4 _ c5 _ e =>
+    gcNoLine c1 && c.noLineC && gcNoLine c2 && gcNoLine c3 && t.noLineC && gcNoLine c4 && gcNoLine c5 && e.noLineC
+  | .has e c1 _ c2 _ _ => e.noLineC && gcNoLine c1 && gcNoLine c2
 def Items.noLineI : Items → Bool
   | .nil => true
   | .cmt _ t rest => !isLineCmt t && rest.noLineI
@@ -1705,6 +1842,37 @@ theorem firstGap_prefix : ∀ (its : Items) (cg : Text), ∃ tl, its.flatten ++ 
   | .cmt g t rest, cg => ⟨t ++ rest.flatten ++ cg, by simp [Items.flatten, Items.firstGap]⟩
   | .elem g c rest, cg => ⟨c.flatten ++ rest.flatten ++ cg, by simp [Items.flatten, Items.firstGap]⟩
   | .bind g n c1 g1 c2 g2 v c3 g3 rest, cg => ⟨_, by simp only [Items.flatten, Items.firstGap, Option.getD_some, List.append_assoc]; rfl⟩
+
+theorem ite_flatten_noNL {g1 g2 g3 g4 g5 : Text} {c t e : Cst}
+    (hn : containsNL (Cst.ite [] g1 c [] g2 [] g3 t [] g4 [] g5 e).flatten = false) :
+    (containsNL c.flatten = false ∧ containsNL t.flatten = false ∧ containsNL e.flatten = false) ∧
+      (containsNL g1 = false ∧ containsNL g2 = false ∧ containsNL g3 = false ∧ containsNL g4 = false ∧
+        containsNL g5 = false) := by
+  have h1 : containsNL (['i', 'f'] ++ (g1 ++ (c.flatten ++ (g2 ++ (['t', 'h', 'e', 'n'] ++ (g3 ++ (t.flatten ++
+      (g4 ++ (['e', 'l', 's', 'e'] ++ (g5 ++ e.flatten))))))))))  = false := by
+    simpa [Cst.flatten, flattenGC, List.append_assoc] using hn
+  have a1 := containsNL_append_false h1
+  have a2 := containsNL_append_false a1.2
+  have a3 := containsNL_append_false a2.2
+  have a4 := containsNL_append_false a3.2
+  have a5 := containsNL_append_false a4.2
+  have a6 := containsNL_append_false a5.2
+  have a7 := containsNL_append_false a6.2
+  have a8 := containsNL_append_false a7.2
+  have a9 := containsNL_append_false a8.2
+  have a10 := containsNL_append_false a9.2
+  exact ⟨⟨a3.1, a7.1, a10.2⟩, ⟨a2.1, a4.1, a6.1, a8.1, a10.1⟩⟩
+
+theorem has_flatten_noNL {g1 g2 : Text} {e : Cst} {attrs : List Text}
+    (hn : containsNL (Cst.has e [] g1 [] g2 attrs).flatten = false) :
+    containsNL e.flatten = false ∧ containsNL g1 = false ∧ containsNL g2 = false := by
+  have h1 : containsNL (e.flatten ++ (g1 ++ (['?'] ++ (g2 ++ attrText attrs)))) = false := by
+    simpa [Cst.flatten, flattenGC, List.append_assoc] using hn
+  have a1 := containsNL_append_false h1
+  have a2 := containsNL_append_false a1.2
+  have a3 := containsNL_append_false a2.2
+  have a4 := containsNL_append_false a3.2
+  exact ⟨a1.1, a2.1, a4.1⟩
 
 mutual
 theorem cst_noLine_of_noNL : (c : Cst) → c.wf = true → containsNL c.flatten = false → c.noLineC = true
@@ -1795,6 +1963,17 @@ theorem cst_noLine_of_noNL : (c : Cst) → c.wf = true → containsNL c.flatten 
     have a2 := containsNL_append_false a1.2
     simp only [Cst.noLineC, gcNoLine, List.all_nil, Bool.and_true, Bool.and_eq_true]
     exact ⟨cst_noLine_of_noNL l hlw a1.1, cst_noLine_of_noNL r hrw a2.2⟩
+  | .ite c1 g1 c c2 g2 c3 g3 t c4 g4 c5 g5 e, hwf, hn => by
+    obtain ⟨⟨h1, h2, h3, h4, h5⟩, ⟨hcw, htw, hew⟩, _⟩ := ite_wf hwf
+    subst h1; subst h2; subst h3; subst h4; subst h5
+    obtain ⟨⟨n1, n2, n3⟩, _⟩ := ite_flatten_noNL hn
+    simp only [Cst.noLineC, gcNoLine, List.all_nil, Bool.and_true, Bool.true_and, Bool.and_eq_true]
+    exact ⟨⟨cst_noLine_of_noNL c hcw n1, cst_noLine_of_noNL t htw n2⟩, cst_noLine_of_noNL e hew n3⟩
+  | .has e c1 g1 c2 g2 attrs, hwf, hn => by
+    obtain ⟨⟨h1, h2⟩, hew, _, _, _⟩ := has_wf hwf
+    subst h1; subst h2
+    simp only [Cst.noLineC, gcNoLine, List.all_nil, Bool.and_true]
+    exact cst_noLine_of_noNL e hew (has_flatten_noNL hn).1
 theorem items_noLine_of_noNL : (its : Items) → ∀ (m : Mode) (cg : Text), its.wf m cg = true → m ≠ .file →
     containsNL (its.flatten ++ cg) = false → its.noLineI = true
   | .nil, _, _, _, _, _ => rfl
@@ -1891,6 +2070,8 @@ theorem lineFreeE_setBefore {e : Expr} (h : e.lineFreeE) {b : List Trivia} (hb :
   | lam n c g k bd b' a => exact ⟨h.1, hb, h.2.2⟩
   | un o e g bt b' a => exact ⟨h.1, hb, h.2.2⟩
   | bin o l r x y b' a => exact ⟨h.1, h.2.1, hb, h.2.2.2⟩
+  | ite c t e cg aic aig btc btg atc tg bec beg aec eg b' a => exact ⟨h.1, h.2.1, h.2.2.1, hb, h.2.2.2.2⟩
+  | has e ats lg rg bq aq b' a => exact ⟨h.1, hb, h.2.2⟩
 
 theorem lineFreeE_addAfter {e : Expr} (h : e.lineFreeE) {a : List Trivia} (ha : lineFree a) : (e.addAfter a).lineFreeE := by
   have haa := lineFree_append.mpr ⟨lineFreeE_after h, ha⟩
@@ -1908,6 +2089,8 @@ theorem lineFreeE_addAfter {e : Expr} (h : e.lineFreeE) {a : List Trivia} (ha : 
   | lam n c g k bd b a' => exact ⟨h.1, h.2.1, haa⟩
   | un o e g bt b a' => exact ⟨h.1, h.2.1, haa⟩
   | bin o l r x y b a' => exact ⟨h.1, h.2.1, h.2.2.1, haa⟩
+  | ite c t e cg aic aig btc btg atc tg bec beg aec eg b a' => exact ⟨h.1, h.2.1, h.2.2.1, h.2.2.2.1, haa⟩
+  | has e ats lg rg bq aq b a' => exact ⟨h.1, h.2.1, haa⟩
 
 theorem mlSafe_setBefore {e : Expr} (h : e.mlSafe) (b : List Trivia) : (e.setBefore b).mlSafe := by
   cases e <;> exact h
@@ -1994,6 +2177,8 @@ theorem lineFreeE_before {e : Expr} (h : e.lineFreeE) : lineFree e.before := by
   | lam n c g k bd b a => exact h.2.1
   | un o e g bt b a => exact h.2.1
   | bin o l r x y b a => exact h.2.2.1
+  | ite c t e cg aic aig btc btg atc tg bec beg aec eg b a => exact h.2.2.2.1
+  | has e ats lg rg bq aq b a => exact h.2.1
 
 theorem binding_inv {n : Text} {c1 c2 c3 : GC} {g1 g2 g3 : Text} {ve b : Expr} {before : List Trivia}
     (h1 : gcOk c1 g1 = true) (h2 : gcOk c2 g2 = true) (h3 : gcOk c3 g3 = true)
@@ -2463,6 +2648,30 @@ theorem cst_parse_inv : (c : Cst) → c.wf = true → ∀ (e : Expr), c.parse = 
     refine ⟨⟨hil.1, hir.1, hil.2.1, hir.2.1, hla, hra⟩, rfl, fun hnl => ?_⟩
     simp only [Cst.noLineC, Bool.and_eq_true] at hnl
     exact ⟨hil.2.2 hnl.1.1.1, hir.2.2 hnl.2, lineFree_nil, lineFree_nil⟩
+  | .ite c1 g1 c c2 g2 c3 g3 t c4 g4 c5 g5 e, hwf, ex, hp => by
+    obtain ⟨⟨h1, h2, h3, h4, h5⟩, ⟨hcw, htw, hew⟩, _⟩ := ite_wf hwf
+    subst h1; subst h2; subst h3; subst h4; subst h5
+    obtain ⟨ce, hpc, _, _, hca, _⟩ := cst_parse_spec false c hcw (fun h => by cases h)
+    obtain ⟨te, hpt, _, _, hta, _⟩ := cst_parse_spec false t htw (fun h => by cases h)
+    obtain ⟨ee, hpe, _, _, hea, _⟩ := cst_parse_spec false e hew (fun h => by cases h)
+    have hic := cst_parse_inv c hcw ce hpc
+    have hit := cst_parse_inv t htw te hpt
+    have hie := cst_parse_inv e hew ee hpe
+    simp only [Cst.parse, hpc, hpt, hpe, iteFromCst_nil] at hp
+    injection hp with hp; subst hp
+    refine ⟨⟨hic.1, hit.1, hie.1, hic.2.1, hit.2.1, hie.2.1, hca, hta, hea⟩, rfl, fun hnl => ?_⟩
+    simp only [Cst.noLineC, gcNoLine, List.all_nil, Bool.and_true, Bool.true_and, Bool.and_eq_true] at hnl
+    exact ⟨hic.2.2 hnl.1.1, hit.2.2 hnl.1.2, hie.2.2 hnl.2, lineFree_nil, lineFree_nil⟩
+  | .has e c1 g1 c2 g2 attrs, hwf, ex, hp => by
+    obtain ⟨⟨h1, h2⟩, hew, _, _, _⟩ := has_wf hwf
+    subst h1; subst h2
+    obtain ⟨ee, hpe, _, _, hea, _⟩ := cst_parse_spec false e hew (fun h => by cases h)
+    have hie := cst_parse_inv e hew ee hpe
+    simp only [Cst.parse, hpe] at hp
+    injection hp with hp; subst hp
+    refine ⟨⟨hie.1, hie.2.1, hea⟩, rfl, fun hnl => ?_⟩
+    simp only [Cst.noLineC, gcNoLine, List.all_nil, Bool.and_true] at hnl
+    exact ⟨hie.2.2 hnl, lineFree_nil, lineFree_nil⟩
 theorem items_parse_inv : (its : Items) → ∀ (m : Mode) (cg : Text) (st st' : SeqSt), its.wf m cg = true →
     its.parseSeq m st = .ok st' → allMlSafe st.items →
     allMlSafe st'.items ∧ (its.noLineI = true → allLineFree st.items → lineFree st.before →
